@@ -44,7 +44,10 @@ def gen_case(rng, method, tier):
     conts = ["np32", "np64", "npint", "tf32", "tf64", "ds_unbatched"] + [f"ds_batch{b}" for b in sorted({1, 2, n, n + 1, max(1, n - 1)})]
     # batch(b, drop_remainder=True) with b dividing N: a batched dataset with a STATIC batch axis holding the same values
     conts += [f"ds_dropbatch{b}" for b in range(1, n + 1) if n % b == 0]
-    chosen = ["np32"] + rng.sample(conts[1:], 3 if tier == "quick" else 5)
+    # a per-sample dataset whose pipeline has a .batch() UPSTREAM (samples picked out of a loader that delivers batches)
+    conts += [f"ds_rebatched{b}" for b in sorted({1, 2, n})]
+    # np32_reused: the same ndarray OBJECTS were explained just before with other values, then overwritten in place
+    chosen = ["np32"] + rng.sample(conts[1:], 3 if tier == "quick" else 5) + ["np32_reused"]
     return dict(method=method, kind=kind, shape=shape, n=n, containers=chosen, seed=rng.randrange(1 << 30),
                 probe_prefetch=(rng.random() < 0.15 and n in (2, 4)))
 
@@ -55,7 +58,7 @@ def generate(rng, tier):
 
 
 def nontrivial(case):
-    return any(c in ("np64", "npint", "tf64") or c.startswith("ds_dropbatch") or
+    return any(c in ("np64", "npint", "tf64") or c.startswith("ds_dropbatch") or c.startswith("ds_rebatched") or
                (c.startswith("ds_batch") and case["n"] % int(c[8:]) != 0) for c in case["containers"])
 
 
@@ -116,6 +119,8 @@ def container(name, x, t):
         return ds.batch(2).prefetch(1), None
     if name.startswith("ds_dropbatch"):
         return ds.batch(int(name[12:]), drop_remainder=True), None
+    if name.startswith("ds_rebatched"):
+        return ds.batch(int(name[12:])).unbatch(), None
     return ds.batch(int(name[8:])), None
 
 
@@ -150,9 +155,16 @@ def run_impl(case):
     try:
         expl = make_explainer(method, model, case["kind"], shape)
         for c in case["containers"] + (["ds_prefetch"] if case["probe_prefetch"] else []):
-            xi, ti = container(c, x, t)
-            seeded(case["seed"])
             try:
+                if c == "np32_reused":
+                    xi, ti = (x * 0.5 + 0.25).astype(np.float32), np.roll(t, 1, axis=1).astype(np.float32)
+                    seeded(case["seed"] + 1)
+                    expl.explain(xi, ti)
+                    xi[...] = x
+                    ti[...] = t
+                else:
+                    xi, ti = container(c, x, t)
+                seeded(case["seed"])
                 e = expl.explain(xi, ti)
                 a = np.asarray(e)
                 out[c] = dict(shape=list(a.shape), dtype=str(e.dtype.name if hasattr(e.dtype, "name") else e.dtype),
